@@ -556,13 +556,13 @@ func (fr *Frame) heapGet(o *Object) Value {
 	return v
 }
 
-func (fr *Frame) load(p *VPtr, in ssa.Instruction) Value {
+func (fr *Frame) load(p *VPtr, in ssa.Instruction, typ types.Type) Value {
 	ex := fr.ex
 	if !p.Safe {
 		fr.panicIf(ex.ts.Not(ex.ptrNonNil(p)), in, "nil pointer dereference")
 	}
 	if len(p.Alts) == 0 {
-		return nil
+		return fr.ex.zero(typ)
 	}
 	n := len(p.Alts)
 	v := navigate(fr.heapGet(p.Alts[n-1].Obj), p.Alts[n-1].Path)
@@ -751,7 +751,7 @@ func (fr *Frame) unop(i *ssa.UnOp) Value {
 	x := fr.eval(i.X)
 	switch i.Op {
 	case token.MUL:
-		return fr.load(x.(*VPtr), i)
+		return fr.load(x.(*VPtr), i, i.Type())
 	case token.NOT:
 		return &VBV{ts.Not(x.(*VBV).T)}
 	case token.SUB:
@@ -1467,19 +1467,33 @@ func (fr *Frame) rangeOp(i *ssa.Range) Value {
 				live = append(live, s)
 			}
 		}
-		rank := make([]*Term, len(live))
-		for k := range rank {
-			rank[k] = ts.Var("maporder", 4)
+		// iteration order: pairwise "a before b" booleans with transitivity (a strict total order)
+		n := len(live)
+		ord := make([][]*Term, n)
+		for a := range ord {
+			ord[a] = make([]*Term, n)
 		}
-		for a := 0; a < len(rank); a++ {
-			for b := a + 1; b < len(rank); b++ {
-				ex.Assumes = append(ex.Assumes, ts.Not(ts.Eq(rank[a], rank[b])))
+		for a := 0; a < n; a++ {
+			for b := a + 1; b < n; b++ {
+				v := ts.Var("maporder", 0)
+				ord[a][b] = v
+				ord[b][a] = ts.Not(v)
+			}
+		}
+		for a := 0; a < n; a++ {
+			for b := 0; b < n; b++ {
+				for c := 0; c < n; c++ {
+					if a != b && b != c && a != c && a < c {
+						ex.Assumes = append(ex.Assumes, ts.Implies(ts.And(ord[a][b], ord[b][c]), ord[a][c]))
+						ex.Assumes = append(ex.Assumes, ts.Implies(ts.And(ord[c][b], ord[b][a]), ord[c][a]))
+					}
+				}
 			}
 		}
 		if len(live) > 15 {
 			panic(unsupported("map with more than 15 modelled slots"))
 		}
-		fr.heap[o] = &VIterC{Kind: 1, Slots: live, Rank: rank, Pos: ts.BV(0, 64), KT: mt.Key(), VT: mt.Elem()}
+		fr.heap[o] = &VIterC{Kind: 1, Slots: live, Ord: ord, Pos: ts.BV(0, 64), KT: mt.Key(), VT: mt.Elem()}
 	default:
 		panic(unsupported("Range on " + i.X.Type().String()))
 	}
@@ -1508,15 +1522,16 @@ func (fr *Frame) next(i *ssa.Next) Value {
 	ok := ts.Ult(c.Pos, cnt)
 	var key Value = ex.zero(c.KT)
 	var val Value = ex.zero(c.VT)
+	pos4 := ts.Extract(c.Pos, 3, 0)
 	for a := n - 1; a >= 0; a-- {
-		before := ts.BV(0, 64)
+		before := ts.BV(0, 4)
 		for b := 0; b < n; b++ {
 			if b == a {
 				continue
 			}
-			before = ts.Add(before, ts.Ite(ts.And(c.Slots[b].P, ts.Ult(c.Rank[b], c.Rank[a])), ts.BV(1, 64), ts.BV(0, 64)))
+			before = ts.Add(before, ts.Ite(ts.And(c.Slots[b].P, c.Ord[b][a]), ts.BV(1, 4), ts.BV(0, 4)))
 		}
-		sel := ts.And(c.Slots[a].P, ts.Eq(before, c.Pos))
+		sel := ts.And(c.Slots[a].P, ts.Eq(before, pos4))
 		key = ex.merge(sel, c.Slots[a].K, key)
 		val = ex.merge(sel, c.Slots[a].V, val)
 	}
